@@ -1,4 +1,4 @@
-from .common import pyvc_units
+from .common import pyvc_units, frame_unit, RECK_FILES
 
 LEVEL = "other"
 MODULES = ["vf.contracts.c_reck"]
@@ -11,4 +11,5 @@ def units(tier):
     u = pyvc_units("C14", MODULES)
     u.append(dict(kind="func", mechanism="bounded runtime contract (C), native floats", name="bounded:reck-default", module="vf.tasks.t_reck", func="unit", args=dict(which="default")))
     u.append(dict(kind="func", mechanism="bounded runtime contract (C), native floats", name="bounded:reck-error-model", module="vf.tasks.t_reck", func="unit", args=dict(which="error")))
+    u.append(frame_unit("reck", RECK_FILES))
     return u
